@@ -164,7 +164,14 @@ def execute_plans(plans):
         ev, rows = run_event(i, h, texts, r, p.cfg, skin=p.skin or {}, data=data)
         return (p, h, data, r, ev, rows)
 
-    return core.pmap(one, list(enumerate(jobs)))
+    # runs that start a stub `git ...` themselves are kept apart in time from runs that read stdin: delta guesses its caller
+    # from neighbouring processes, and a stub of another run nearby would be taken for it
+    idx = list(enumerate(jobs))
+    plain = [x for x in idx if not x[1][0].cmd]
+    stubbed = [x for x in idx if x[1][0].cmd]
+    out = dict(zip([i for i, _ in plain], core.pmap(one, plain)))
+    out.update(zip([i for i, _ in stubbed], core.pmap(one, stubbed)))
+    return [out[i] for i in range(len(jobs))]
 
 
 def drift_report(results):
